@@ -10,13 +10,18 @@
 package c08
 
 import (
+	"encoding/json"
 	"fmt"
 	"os"
+	"reflect"
 	"strings"
 	"time"
 
+	"github.com/robertkrimen/otto"
+
 	"verif/harness/internal/core"
 	"verif/harness/internal/gen"
+	"verif/harness/internal/jsx"
 	"verif/harness/internal/tlc"
 )
 
@@ -123,7 +128,12 @@ function RESOLVE(x){
   if (x !== null && typeof x === "object") {
     if (x.t === "ref") return OBJ[x.id];
     if (x.t === "cb") return MKCB(x);
-    if (x.t === "cmp") return x.k === "numasc" ? function(a,b){ return a-b; } : function(a,b){ return b-a; };
+    if (x.t === "cmp") switch (x.k) {
+      case "numasc": return function(a,b){ return a-b; };
+      case "numdesc": return function(a,b){ return b-a; };
+      case "parity": return function(a,b){ return (a%2)-(b%2); };
+      case "zero": return function(a,b){ return 0; };
+    }
   }
   return x;
 }
@@ -133,7 +143,8 @@ function INVOKE(m, recv, a){
     case 0: return new Array();
     case 1: return new Array(a[0]);
     case 2: return new Array(a[0],a[1]);
-    default: return new Array(a[0],a[1],a[2]);
+    case 3: return new Array(a[0],a[1],a[2]);
+    default: throw new Error("INVOKE: too many arguments");
   }
   var f = m === "isArray" ? Array.isArray : (m === "Array" ? Array : Array.prototype[m]);
   if (m === "Array" || m === "isArray") recv = undefined;
@@ -142,8 +153,11 @@ function INVOKE(m, recv, a){
     case 1: return f.call(recv,a[0]);
     case 2: return f.call(recv,a[0],a[1]);
     case 3: return f.call(recv,a[0],a[1],a[2]);
-    default: return f.call(recv,a[0],a[1],a[2],a[3]);
+    case 4: return f.call(recv,a[0],a[1],a[2],a[3]);
+    case 5: return f.call(recv,a[0],a[1],a[2],a[3],a[4]);
+    case 6: return f.call(recv,a[0],a[1],a[2],a[3],a[4],a[5]);
   }
+  throw new Error("INVOKE: too many arguments");
 }
 // one method case
 function RC(c){
@@ -217,6 +231,9 @@ var Spec = &gen.Spec{
 	PerVM:   200,
 	Runs: func(c *core.Ctx) []gen.RunCfg {
 		if f := os.Getenv("VERIF_C08_FAMS"); f != "" { // debugging aid: run selected families only
+			if f == "judge" {
+				f = "ctor"
+			}
 			fams := strings.Split(f, ",")
 			if fams[0] == "hist" {
 				return []gen.RunCfg{{Name: "debug-hist", Cfg: cfg(c, fams, 0, 2, false, true, true)}}
@@ -252,8 +269,105 @@ var Spec = &gen.Spec{
 // Check runs the property.
 func Check(c *core.Ctx) (map[string]any, []string, error) {
 	cov, as, err := gen.Check(c, Spec)
-	if cov != nil {
-		cov["model_properties_checked"] = []string{"LengthAboveIndices", "LengthIsUint32", "NonWritableLengthStable", "ShrinkDeletesTail", "GrowKeepsElements"}
+	if err != nil || cov == nil {
+		return cov, as, err
 	}
-	return cov, as, err
+	cov["model_properties_checked"] = []string{"LengthAboveIndices", "LengthIsUint32", "NonWritableLengthStable", "ShrinkDeletesTail", "GrowKeepsElements"}
+	st, err := selfTest(cov)
+	if err != nil {
+		return nil, nil, err
+	}
+	cov["binding_selftest"] = st
+	if os.Getenv("VERIF_C08_FAMS") == "" || os.Getenv("VERIF_C08_FAMS") == "judge" {
+		n := 1500
+		if c.Thorough() {
+			n = 25000
+		}
+		j, err := runJudge(c, n)
+		if err != nil {
+			return nil, nil, err
+		}
+		cov["judge"] = j
+		cov["traces_validated_against_impl"] = cov["traces_validated_against_impl"].(int64) + int64(j["events"].(int))
+	}
+	return cov, as, nil
+}
+
+// selfTest demonstrates that the comparison is not vacuous (DESIGN.md 5.4): the conforming cases
+// sampled by the driver are evaluated again (a) unchanged - they must conform, (b) with a mutated
+// projection (the writable attribute reported flipped), (c) with a mutated adapter (pairs of
+// builtins swapped) and (d) against a corrupted expected outcome; (b) and (d) must reject every
+// usable sample.
+func selfTest(cov map[string]any) (map[string]any, error) {
+	eval := func(prelude, src string) (string, error) {
+		vm := otto.New()
+		if err := vm.Set("NUMENC", func(call otto.FunctionCall) otto.Value {
+			f, _ := call.Argument(0).ToFloat()
+			v, _ := otto.ToValue(jsx.NumEnc(f))
+			return v
+		}); err != nil {
+			return "", err
+		}
+		if _, err := vm.Run(prelude); err != nil {
+			return "", err
+		}
+		v, err := vm.Call("RUN", nil, src)
+		if err != nil {
+			return "", err
+		}
+		return v.String(), nil
+	}
+	same := func(a string, b []byte) bool {
+		var x, y any
+		if json.Unmarshal([]byte(a), &x) != nil || json.Unmarshal(b, &y) != nil {
+			return false
+		}
+		return reflect.DeepEqual(x, y)
+	}
+	base := gen.Prelude + Prelude
+	flipped := strings.Replace(base, "w:d.writable", "w:!d.writable", 1)
+	swapped := strings.Replace(base, "Array.prototype[m]);", "Array.prototype[({pop:'shift',shift:'pop',slice:'splice',splice:'slice',indexOf:'lastIndexOf',lastIndexOf:'indexOf',every:'some',some:'every',push:'unshift',unshift:'push',reduce:'reduceRight',reduceRight:'reduce',map:'filter',filter:'map'})[m] || m]);", 1)
+	if flipped == base || swapped == base {
+		return nil, fmt.Errorf("self-test: mutation points not found in the prelude")
+	}
+	var usable, rejFlip, rejSwap, rejExp int
+	samples, _ := cov["samples"].([]any)
+	for _, sm := range samples {
+		m, ok := sm.(map[string]any)
+		if !ok {
+			continue
+		}
+		src, _ := m["js"].(string)
+		exp, _ := m["expected"].(json.RawMessage)
+		out, err := eval(base, src)
+		if err != nil || !same(out, exp) {
+			continue // sample needs injected constants: not usable here
+		}
+		usable++
+		if o, err := eval(flipped, src); err != nil || !same(o, exp) {
+			rejFlip++
+		}
+		if o, err := eval(swapped, src); err != nil || !same(o, exp) {
+			rejSwap++
+		}
+		var e map[string]any
+		if json.Unmarshal(exp, &e) == nil {
+			if v, ok := e["v"].(map[string]any); ok {
+				v["thr"] = "Mutated"
+			}
+			b, _ := json.Marshal(e)
+			if !same(out, b) {
+				rejExp++
+			}
+		}
+	}
+	res := map[string]any{"samples_usable": usable, "rejected_with_flipped_projection": rejFlip,
+		"rejected_with_swapped_builtins": rejSwap, "rejected_with_corrupted_expectation": rejExp}
+	if usable == 0 {
+		return nil, fmt.Errorf("self-test: no usable sample")
+	}
+	if rejFlip != usable || rejExp != usable {
+		return nil, fmt.Errorf("self-test: a mutated projection/expectation was accepted: %v", res)
+	}
+	return res, nil
 }
